@@ -1,7 +1,7 @@
 """C11 — string conversions of generated types agree with their wire format (template clauses)."""
 import re
 from lib import (norm_arm, walk, nodes, ends, src, psrc, outcome, contains_node, pat_top_variants, short, calls_in, block_last,
-                 strip_refs, guards, gtext, top_stmts, templates_in)
+                 strip_refs, guards, gtext, top_stmts, templates_in, Canon)
 import emit
 import tmplparse as tp
 
@@ -17,6 +17,9 @@ EXPLANATION = (
 )
 ASSUMPTIONS = ["FromStr/Display of uuid, chrono and std::net types agree with their serde string form"]
 
+# provenance patterns (Canon renderings; local variable names do not occur in them)
+VARIANTS_ZIP = r"^\S*~TypeEntryEnum\.variants\.iter\(\)\.map\(\|\.\.\| \(format_ident!\(\S*\.ident_name\.unwrap\(\)\), elem<\S*~TypeEntryEnum\.variants\.iter\(\)>\.raw_name\)\)\.unzip\(\)"
+
 
 def run(facts, rep, tier):
     c = facts.impl
@@ -24,125 +27,142 @@ def run(facts, rep, tier):
     if not rep.floor("C11.T1", "item emitters", len(ems), 3):
         return
     ee = ems["enum"]
-    simple = [t for t in ee.templates if any("AllSimpleVariants" in g[-1] or "AllSimpleVariants" in " ".join(g) for g in t.guards if g[0] == "adaptor") and t.impls]
+    hc = ee.hole_canon()
+    inv = ee.actual
+    simple = [t for t in ee.templates if t.impls and any(g[0] == "adaptor" and "AllSimpleVariants" in g[2] for g in t.conds())]
     if rep.floor("C11.T1", "all-simple impl template", len(simple), 1):
         t = simple[0]
         disp = [im for im in t.impls if im["trait"] == "::std::fmt::Display"]
         frm = [im for im in t.impls if im["trait"] == "::std::str::FromStr"]
         dtxt = tp.flat(disp[0]["fns"][0]["body"]).replace(" ", "") if disp else ""
         ftxt = tp.flat(frm[0]["fns"][0]["body"]).replace(" ", "") if frm else ""
-        md = re.search(r"match\*self\{#\(Self::#(\w+)=>write!\(f,#(\w+)\),\)\*\}", dtxt)
-        mf = re.search(r"matchvalue\{#\(#(\w+)=>Ok\(Self::#(\w+)\),\)\*_=>Err\(", ftxt)
+        md = re.search(r"match\*self\{#\(Self::#(\??\w+)=>write!\(f,#(\??\w+)\),\)\*\}", dtxt)
+        mf = re.search(r"matchvalue\{#\(#(\??\w+)=>Ok\(Self::#(\??\w+)\),\)\*_=>Err\(", ftxt)
         rep.ob("C11.T1", "display-shape", bool(md), "Display: match *self { #(Self::#%s => write!(f, #%s),)* }" % (md.group(1), md.group(2)) if md else "Display body is `%s`" % dtxt[:100], t.sp)
         rep.ob("C11.T1", "fromstr-shape", bool(mf), "FromStr: match value { #(#%s => Ok(Self::#%s),)* _ => Err }" % (mf.group(1), mf.group(2)) if mf else "FromStr body is `%s`" % ftxt[:100], t.sp)
         if md and mf:
             dv, ds = md.group(1), md.group(2)
             fs, fv = mf.group(1), mf.group(2)
             rep.ob("C11.T1", "same-variant-vector", dv == fv, "both sides iterate #%s" % dv if dv == fv else "Display iterates #%s but FromStr #%s" % (dv, fv), t.sp)
-            # where the two vectors come from: one unzip of one map over variants
-            clo = [a for a in t.anc if a.get("k") == "closure"]
-            scope = clo[-1]["body"] if clo else ee.h["body"]
-            unz = [n for n, _ in nodes(scope, "let") if n["pat"].get("k") == "tuple" and "unzip()" in src(n.get("init"))]
-            ok = False
-            detail = "the variant/str vectors are not produced by one unzip"
-            if unz:
-                names = [p.get("name") for p in unz[0]["pat"]["pats"]]
-                init = src(unz[0]["init"])
-                m2 = re.search(r"variants\.iter\(\)\.map\(\|(\w+)\| \{ (.*) \}\)\.unzip\(\)", init)
-                if m2 and names[0] == dv and names[1] == fs:
-                    v = m2.group(1)
-                    inner = m2.group(2)
-                    ok = ("%s.ident_name.as_ref().unwrap()" % v) in inner and ("&%s.raw_name" % v) in inner and "format_ident!(" in inner
-                    detail = "(#%s, #%s) = variants.iter().map(|v| (format_ident!(v.ident_name), &v.raw_name)).unzip()" % (names[0], names[1])
-            rep.ob("C11.T1", "idents-and-strings-from-one-iteration", ok, detail, unz[0].get("sp") if unz else None)
-            # the Display literal
+
+            def prov(role):
+                return hc.get(inv.get(role, role.lstrip("?")), hc.get(role.lstrip("?"), ""))
+            pv, ps, pd = prov(dv), prov(fs), prov(ds)
+            ok = bool(re.search(VARIANTS_ZIP + r"\.0$", pv)) and bool(re.search(VARIANTS_ZIP + r"\.1$", ps))
+            rep.ob("C11.T1", "idents-and-strings-from-one-iteration", ok,
+                   "(idents, strings) = variants.iter().map(|v| (format_ident!(v.ident_name), &v.raw_name)).unzip()" if ok else
+                   "the Display/FromStr vectors do not come from one pairing of ident_name with raw_name: idents ← %s; strings ← %s" % (pv[:120], ps[:120]), t.sp)
             if ds == fs:
                 rep.ob("C11.T1", "display-literal-is-escaped-raw-name", False, "Display passes the raw JSON string #%s to write! as a *format string*: a value containing `{` or `}` does not compile / prints something else" % ds, t.sp)
             else:
-                lets = [n for n, _ in nodes(scope, "let") if n["pat"].get("k") == "bind" and n["pat"]["name"] == ds]
-                init = src(lets[0]["init"]) if lets else ""
-                ok = init.startswith("%s.iter().map(|" % fs) and ".replace('{', \"{{\").replace('}', \"}}\")" in init and init.count(".replace(") == 2
-                rep.ob("C11.T1", "display-literal-is-escaped-raw-name", ok, "#%s = #%s with `{`/`}` doubled (format-string escape only)" % (ds, fs) if ok else "Display prints #%s = `%s`, which is not the raw name (escaped)" % (ds, init[:100]), lets[0].get("sp") if lets else t.sp)
+                okd = bool(re.search(VARIANTS_ZIP + r"\.1\.iter\(\)\.map\(\|\.\.\| elem<.*>\.replace\('\{', \"\{\{\"\)\.replace\('\}', \"\}\}\"\)\)\.collect\(\)$", pd)) and pd.count(".replace(") == 2
+                rep.ob("C11.T1", "display-literal-is-escaped-raw-name", okd, "Display literal = raw_name with `{`/`}` doubled (format-string escape only)" if okd else "Display prints `%s`, which is not the (escaped) raw name" % pd[-160:], t.sp)
     # variant declaration: rename iff raw != ident, with the raw name
-    ov = [h for h in c.user_fns() if h["fn"].endswith("enums::output_variant")]
+    ov = [h for h in c.user_fns() if any("rename" in (t or {}).get("text", "") for (_, _, t) in templates_in(facts, c, h)) and c.fns[h["fn"]]["inputs"] and "Variant" in c.fns[h["fn"]]["inputs"][0]]
     if rep.floor("C11.T1", "variant declaration emitter", len(ov), 1):
         h = ov[0]
-        lets = {n["pat"]["name"]: n for n, _ in nodes(h["body"], "let") if n["pat"].get("k") == "bind"}
-        s_serde = src(lets["serde"]["init"]) if "serde" in lets else ""
-        ok = s_serde.startswith("(&variant.raw_name Ne ident_name).then(") and "let s = &variant.raw_name" in s_serde
-        rep.ob("C11.T1", "rename-iff-differs-with-raw-name", ok, "#[serde(rename = #s)] with s = &variant.raw_name, emitted iff raw_name != ident_name" if ok else "variant rename is `%s`" % s_serde[:120], lets.get("serde", {}).get("sp"))
-        rt = [t for (n, anc, t) in templates_in(facts, c, h) if t and "rename" in t["text"]]
-        rep.ob("C11.T1", "rename-template", bool(rt) and rt[0]["text"].replace(" ", "") == "#[serde(rename=#s)]", "template `%s`" % (rt[0]["text"] if rt else "?"))
-        rep.ob("C11.T1", "variant-ident-is-ident_name", src(lets["ident_name"]["init"]) == "variant.ident_name.as_ref().unwrap()" and src(lets["variant_name"]["init"]) == "format_ident!(ident_name)", "variant_name = format_ident!(variant.ident_name)")
+        cn = Canon(c, h, 4)
+        rts = [(n, anc, t) for (n, anc, t) in templates_in(facts, c, h) if t and re.sub(r"\s+", "", t["text"]).startswith("#[serde(rename=#")]
+        ok = False
+        detail = "no #[serde(rename = ..)] template"
+        if rts:
+            n, anc, t = rts[0]
+            hole = [a for a in n["args"] if a.get("hole")]
+            hp = cn.r(hole[0]) if hole else ""
+            gs = emit.cguards(cn, anc, n)
+            cond = [g for g in gs if g[0] == "adaptor" and g[1] == "then"]
+            ok = bool(re.fullmatch(r"\S*Variant\.raw_name", hp)) and bool(cond) and bool(re.fullmatch(r"\(\S*Variant\.raw_name Ne \S*Variant\.ident_name\.unwrap\(\)\)", cond[0][2]))
+            detail = "rename = %s under `%s`" % (hp, cond[0][2] if cond else gtext(gs))
+        rep.ob("C11.T1", "rename-iff-differs-with-raw-name", ok, "#[serde(rename = raw_name)] emitted iff raw_name != ident_name" if ok else "variant rename: %s" % detail, rts[0][0].get("sp") if rts else None)
+        # the declared identifier
+        decl = [(n, anc, t) for (n, anc, t) in templates_in(facts, c, h) if t and t["tt"] and t["tt"][-1]["t"] == "punct" and t["tt"][-1]["s"] == ","]
+        idents = set()
+        for (n, anc, t) in decl:
+            hs = [x for i, x in enumerate(t["tt"]) if x["t"] == "hole" and not (i + 1 < len(t["tt"]) and t["tt"][i + 1]["t"] == "punct" and t["tt"][i + 1]["s"] == ":")]
+            holes_ty = {a["path"]: (c.ty(a.get("ty")), cn.r(a)) for a in n["args"] if a.get("hole")}
+            for x in hs:
+                ty, pr = holes_ty.get(x["name"], ("", ""))
+                if ty.endswith("proc_macro2::Ident"):
+                    idents.add(pr)
+        ok = idents == {"format_ident!($&Variant.ident_name.unwrap())"}
+        rep.ob("C11.T1", "variant-ident-is-ident_name", ok, "declared variant identifier = format_ident!(variant.ident_name)" if ok else "declared variant identifiers come from %s" % sorted(idents))
 
     # ------------------------------------------------------------ T2
     n_tf = 0
+    bad_tf = 0
     for kind, e in ems.items():
         for t in e.templates:
             for im in t.impls:
                 if re.fullmatch(r"::std::convert::TryFrom<(&str|&String|String|&::std::string::String|::std::string::String)>", im["trait"]) and im["self"] == "#type_name":
                     n_tf += 1
                     bt = tp.flat(im["fns"][0]["body"]).replace(" ", "") if im["fns"] else ""
-                    ok = bt == "value.parse()"
-                    if not ok:
-                        rep.ob("C11.T2", "tryfrom-delegates-to-parse:%s/%s" % (kind, t.sp.split(":")[-2]), False, "TryFrom body `%s` does not delegate to FromStr" % bt, t.sp)
-    rep.ob("C11.T2", "tryfrom-delegates-to-parse", n_tf >= 12 and not any(o["key"].startswith("C11.T2/tryfrom-delegates-to-parse:") for o in rep.obligations), "%d TryFrom<string-like> impls, all `value.parse()`" % n_tf)
+                    if bt != "value.parse()":
+                        bad_tf += 1
+                        rep.ob("C11.T2", "tryfrom-delegates-to-parse:%s/%s" % (kind, im["trait"].split("<")[1].rstrip(">")), False, "TryFrom body `%s` does not delegate to FromStr" % bt, t.sp)
+    rep.ob("C11.T2", "tryfrom-delegates-to-parse", n_tf >= 12 and bad_tf == 0, "%d TryFrom<string-like> impls, all `value.parse()`" % n_tf)
     ne = ems["newtype"]
+    IS_STR = r"match \S*\.id_to_entry\.get\(\S*\.type_id\)\.unwrap\(\)\.details \{ TypeEntryDetails::String => true \| _ => false \}"
+    seen = set()
     for t in ne.templates:
         arm = t.arm_of("constraints") or ""
         for im in t.impls:
             if im["self"] != "#type_name":
                 continue
             body = tp.flat(im["fns"][0]["body"]).replace(" ", "") if im["fns"] else ""
-            conds = gtext([g for g in t.conds() if not (g[0] == "arm" and "constraints" in g[3])])
+            conds = [g for g in t.conds() if not (g[0] == "arm" and "constraints" in g[3])]
+            ctext = gtext(conds)
             if im["trait"] == "::std::fmt::Display" and "None" in arm:
-                rep.ob("C11.T2", "newtype-display-delegates", body == "self.0.fmt(f)", "Display = self.0.fmt(f)", t.sp)
+                ok = body == "self.0.fmt(f)" and bool(re.fullmatch(r"adaptor:then\|\S*\.has_impl\(\S* TypeSpaceImpl::Display\)", ctext))
+                rep.ob("C11.T2", "newtype-display-delegates", ok, "Display = self.0.fmt(f), emitted iff the inner type has Display" if ok else "newtype Display is `%s` under `%s`" % (body, ctext[:100]), t.sp)
+                seen.add("display")
             if im["trait"] == "::std::str::FromStr" and "None" in arm:
-                if conds.endswith("is_str"):
+                if re.fullmatch(r"adaptor:then\|" + IS_STR, ctext):
                     ok = body == "Ok(Self(value.to_string()))" and im["assoc"].get("Err") == "::std::convert::Infallible"
                     rep.ob("C11.T2", "string-newtype-fromstr-total", ok, "FromStr of the plain string newtype is total (Err = Infallible), like its transparent Deserialize" if ok else "FromStr of the plain string newtype is `%s`" % body, t.sp)
+                    seen.add("str")
                 else:
-                    rep.ob("C11.T2", "newtype-fromstr-delegates", body == "Ok(Self(value.parse()?))", "FromStr = Ok(Self(value.parse()?))", t.sp)
+                    ok = body == "Ok(Self(value.parse()?))" and bool(re.fullmatch(r"adaptor:then\|\(\S*\.has_impl\(\S* TypeSpaceImpl::FromStr\) And !" + IS_STR + r"\)", ctext))
+                    rep.ob("C11.T2", "newtype-fromstr-delegates", ok, "FromStr = Ok(Self(value.parse()?)), emitted iff the inner type has FromStr and is not String" if ok else "newtype FromStr is `%s` under `%s`" % (body, ctext[:140]), t.sp)
+                    seen.add("fromstr")
             if im["trait"] == "::std::str::FromStr" and "String" in arm:
-                # shared with Deserialize: checked in C05.T3 too
                 des = [i2 for t2 in ne.templates if (t2.arm_of("constraints") or "") == arm for i2 in t2.impls if i2["trait"].startswith("::serde::Deserialize<")]
                 dbody = tp.flat(des[0]["fns"][0]["body"]).replace(" ", "") if des else ""
                 ok = bool(des) and dbody.startswith("::std::string::String::deserialize(deserializer)?.parse()")
                 rep.ob("C11.T2", "constrained-fromstr-shared-with-deserialize", ok, "Deserialize = String::deserialize(..)?.parse()" if ok else "constrained string newtype: Deserialize does not go through FromStr", t.sp)
                 rep.ob("C11.T2", "constrained-fromstr-keeps-value", body.endswith("Ok(Self(value.to_string()))"), "FromStr stores the string unchanged")
-    # inner-type delegation conditions
-    s = src(ne.h["body"])
-    rep.ob("C11.T2", "delegating-impls-need-inner-impl", "(inner_type.has_impl(type_space, TypeSpaceImpl::FromStr) And !is_str).then(" in s and "inner_type.has_impl(type_space, TypeSpaceImpl::Display).then(" in s, "delegating FromStr/Display are emitted only when the inner type has the impl")
+                seen.add("constrained")
+    rep.floor("C11.T2", "newtype string-conversion impls", len(seen), 4)
 
     # ------------------------------------------------------------ D1
     fin = [h for h in c.user_fns() if h["fn"].endswith("TypeEntryEnum::finalize")]
     if rep.floor("C11.D1", "TypeEntryEnum::finalize", len(fin), 1):
-        s = src(fin[0]["body"])
-        flagn = [n for n, _ in nodes(fin[0]["body"], "mcall") if n["name"] in ("then_some", "then") and "AllSimpleVariants" in src(n["args"])]
-        cond = src(flagn[0]["recv"]) if flagn else ""
-        want = "(((self.tag_type Ne EnumTagType::Untagged) And !self.variants.is_empty()) And self.variants.iter().all(|variant| match variant.details { VariantDetails::Simple => true | _ => false }))"
-        rep.ob("C11.D1", "all-simple-flag", cond.replace("&", "") == want, "AllSimpleVariants ⇔ tagged ∧ non-empty ∧ every variant Simple" if cond.replace("&", "") == want else "the AllSimpleVariants flag is computed as `%s`" % cond[:200], flagn[0].get("sp") if flagn else None)
+        cn = Canon(c, fin[0], 5)
+        flags = {}
+        for n, _ in nodes(fin[0]["body"], "mcall"):
+            if n["name"] in ("then_some", "then") and n.get("args"):
+                m = re.search(r"TypeEntryEnumImpl::(\w+)", src(n["args"]))
+                if m:
+                    flags[m.group(1)] = cn.r(n["recv"])
+        want = "(((self.tag_type Ne EnumTagType::Untagged) And !self.variants.is_empty()) And self.variants.iter().all(|..| match elem<self.variants.iter()>.details { VariantDetails::Simple => true | _ => false }))"
+        got = flags.get("AllSimpleVariants", "")
+        rep.ob("C11.D1", "all-simple-flag", got == want, "AllSimpleVariants ⇔ tagged ∧ non-empty ∧ every variant Simple" if got == want else "the AllSimpleVariants flag is computed as `%s`" % got[:200])
         for tr, flag in (("FromStr", "UntaggedFromStr"), ("Display", "UntaggedDisplay")):
-            m = re.search(r"untagged_newtype_variants\(type_space, &self\.tag_type, &self\.variants, TypeSpaceImpl::%s\)\.then_some\(TypeEntryEnumImpl::%s\)" % (tr, flag), s)
-            rep.ob("C11.D1", "untagged-flag:%s" % tr, bool(m), "%s ⇔ untagged_newtype_variants(.., %s)" % (flag, tr))
-    un = [h for h in c.user_fns() if h["fn"].endswith("untagged_newtype_variants")]
-    if rep.floor("C11.D1", "untagged_newtype_variants", len(un), 1):
-        s = src(un[0]["body"])
-        ok = s.startswith("{ ((tag_type Eq &EnumTagType::Untagged) And variants.iter().all(") and "VariantDetails::Item(type_id) => Some(type_id) | _ => None" in s and "type_entry.has_impl(type_space, req_impl)" in s and "|| false" in s
-        rep.ob("C11.D1", "untagged-needs-all-items-with-impl", ok, "untagged ∧ every variant is Item(t) with t.has_impl(req)" if ok else "predicate is `%s`" % s[:160])
+            got = flags.get(flag, "")
+            okf = got.startswith("((self.tag_type Eq EnumTagType::Untagged) And self.variants.iter().all(|..| match elem<self.variants.iter()>.details { VariantDetails::Item(_) => Some(") and ("| _ => None }.map_or_else(|..| false, |..|" in got) and got.rstrip(")").endswith(".has_impl($&TypeSpace, TypeSpaceImpl::%s" % tr)
+            rep.ob("C11.D1", "untagged-flag:%s" % tr, okf, "%s ⇔ untagged ∧ every variant is Item(t) with t.has_impl(%s)" % (flag, tr) if okf else "%s is computed as `%s`" % (flag, got[:220]))
     for flag, trait in (("UntaggedFromStr", "::std::str::FromStr"), ("UntaggedDisplay", "::std::fmt::Display")):
-        ts = [t for t in ee.templates if any(flag in " ".join(g) for g in t.guards if g[0] == "adaptor") and t.impls]
+        ts = [t for t in ee.templates if t.impls and any(g[0] == "adaptor" and flag in g[2] for g in t.conds())]
         if rep.floor("C11.D1", "template under %s" % flag, len(ts), 1):
             t = ts[0]
-            clo = [a for a in t.anc if a.get("k") == "closure"]
-            lets = [n for n, _ in nodes(clo[-1]["body"], "let") if n["pat"].get("k") == "bind" and n["pat"]["name"] == "variant_name"]
-            init = src(lets[0]["init"]) if lets else ""
-            ok = init.startswith("variants.iter().map(|variant| format_ident!(") and "rev()" not in init and "sort" not in init
-            rep.ob("C11.D1", "declaration-order:%s" % flag, ok, "variants are tried/printed in declaration order (variants.iter())" if ok else "variant order differs: %s" % init[:100], t.sp)
             im = [i for i in t.impls if i["trait"] == trait]
             body = tp.flat(im[0]["fns"][0]["body"]).replace(" ", "") if im else ""
             if flag == "UntaggedFromStr":
-                ok = body.startswith("#(ifletOk(v)=value.parse(){Ok(Self::#variant_name(v))}else)*{Err(")
+                m = re.match(r"#\(ifletOk\(v\)=value\.parse\(\)\{Ok\(Self::#(\??\w+)\(v\)\)\}else\)\*\{Err\(", body)
             else:
-                ok = body == "matchself{#(Self::#variant_name(x)=>x.fmt(f),)*}"
-            rep.ob("C11.D1", "untagged-body:%s" % flag, ok, "body delegates to each variant's own impl" if ok else "body is `%s`" % body[:120], t.sp)
+                m = re.fullmatch(r"matchself\{#\(Self::#(\??\w+)\(x\)=>x\.fmt\(f\),\)\*\}", body)
+            rep.ob("C11.D1", "untagged-body:%s" % flag, bool(m), "body delegates to each variant's own impl" if m else "body is `%s`" % body[:120], t.sp)
+            if m:
+                role = m.group(1)
+                p = hc.get(inv.get(role, role.lstrip("?")), hc.get(role.lstrip("?"), ""))
+                ok = bool(re.fullmatch(r"\S*~TypeEntryEnum\.variants\.iter\(\)\.map\(\|\.\.\| format_ident!\(elem<\S*~TypeEntryEnum\.variants\.iter\(\)>\.ident_name\.unwrap\(\)\)\)", p))
+                rep.ob("C11.D1", "declaration-order:%s" % flag, ok, "variants are tried/printed in declaration order (variants.iter())" if ok else "variant identifiers come from `%s`" % p[:140], t.sp)
